@@ -90,10 +90,13 @@ class Lib(FsMixin):
         m['os.path'] = {}
         m['tempfile'] = {}
         m['threading'] = {}
-        m['time'] = {}
+        m['time'] = {'time': E('time.time', self.time_time), 'sleep': E('time.sleep', self.time_sleep)}
         m['warnings'] = {}
         m['itertools'] = {}
-        m['operator'] = {}
+        def opf(nm, cmpname):
+            return E('operator.' + nm, lambda it, a, k: it.compare(cmpname, a[0], a[1]))
+        m['operator'] = {'eq': opf('eq', 'Eq'), 'ne': opf('ne', 'NotEq'), 'lt': opf('lt', 'Lt'),
+                         'gt': opf('gt', 'Gt'), 'le': opf('le', 'LtE'), 'ge': opf('ge', 'GtE')}
         m['math'] = {}
         m['random'] = {}
         m['shutil'] = {'rmtree': E('shutil.rmtree', self.unsupported('shutil.rmtree'))}
@@ -289,6 +292,22 @@ class Lib(FsMixin):
         return SV('bytes', r)
 
     # ------------------------------------------------------------------ functools / contextlib
+    def time_time(self, it, a, k):
+        st = it.st
+        t = st.fresh('clock', z3.RealSort())
+        prev = st.world.get('clock')
+        if prev is not None:
+            st.assume(t >= prev)
+        st.assume(t > 0)
+        st.world['clock'] = t
+        st.effect('CLOCK', t=t)
+        self.env.use('time.time(): positive, non-decreasing readings; floats in clock arithmetic treated as reals')
+        return SV('real', t)
+
+    def time_sleep(self, it, a, k):
+        it.st.effect('SLEEP', d=a[0])
+        return None
+
     def ft_partial(self, it, a, k):
         f, pre = a[0], a[1:]
         return EnvFunc('partial', lambda it2, a2, k2: it2.call(f, list(pre) + list(a2), dict(k, **k2)))
